@@ -13,7 +13,7 @@
   memory outside its own parameter slots, and it produces no output.
 -/
 import CprocVerif.Lemmas.LowerMain
-import CprocVerif.Lemmas.Lower2Main
+import CprocVerif.Lemmas.Lower2Prog
 import CprocVerif.Model.CSem3
 import CprocVerif.Spec.QbeWf
 
@@ -226,7 +226,7 @@ theorem lower2_correct_in (cs : Bool) (startid : Nat) (f : CSem2.Func) (ρ : Lis
     (hstack : p.initMem.stack = #[]) (hsp : p.initMem.sp = stackTop) :
     ∃ fuel₀ r, RetRep f.ret v r ∧ ∀ fuel, fuel₀ ≤ fuel →
       runFunc p ext f.name (argsOf f.params ρ) fuel = ⟨#[], .ret (.scalar r)⟩ := by
-  have hex : CSem2.exec cs cfuel (CSem2.initStore f ρ) f.body = some (.ret v) := by
+  have hex : CSem2.exec cs [] cfuel (CSem2.initStore f ρ) f.body = some (.ret v) := by
     unfold CSem2.runC at hev
     split at hev
     · rename_i w h; cases hev; exact h
@@ -265,50 +265,124 @@ def emit2_wf_full : Prop :=
   ∀ (cs : Bool) (startid : Nat) (f : CSem2.Func), CSem2.WT f →
     wf (moduleOf (Lower2.emitFunc cs startid f)) = .ok ()
 
-/-! ## Stage D — programs with calls (model and tie; the theorem is stated, not proved)
+/-! ## Stage D — programs with calls
 
   `CSem2.Stmt.call` (`[x =] f(args);`) is lowered by `Lower2.funcstmt` as qbe.c's `EXPRCALL` does (arguments in
   order, `call $f(w %a, l %b)` with the classes of the converted arguments and of the return type, cast
-  and store of the result) and `CSem3.execP`/`runP` give programs their C meaning; `checks/c01.py` ties both
-  to cproc-qbe, gcc and clang on generated programs (direct calls, self-recursion).  For a single function
-  `CSem2.exec` gives a call no meaning, so `lower2_correct` says nothing about executions that reach one. -/
+  and store of the result) and `CSem2.exec` with the list of the program's functions (`CSem3.runP`) gives
+  programs their C meaning: direct calls, recursion.  For a single function (`CSem2.runC`: the empty
+  program) a call has no meaning, so `lower2_correct` says nothing about executions that reach one. -/
 
 /-- the functions of a program, emitted one after the other (`mkblock`'s counter runs on) -/
-def emitProg (cs : Bool) : Nat → List CSem2.Func → List Qbe.Func
-  | _, [] => []
-  | startid, f :: fs => Lower2.emitFunc cs startid f :: emitProg cs (Lower2.nextBlockId cs startid f) fs
+abbrev emitProg (cs : Bool) : Nat → List CSem2.Func → List Qbe.Func := Lower2.emitProg cs
 
-/-- Stated, NOT proved and not claimed: preservation for programs.  Missing, on top of what is proved for
-    𝔽₂: (1) `Lower2Mem.AInv` for a frame whose slots start at stack index `x.sm ≠ 0`, together with "the
-    allocations below `x.sm` and the globals are unchanged", so that `Mem.popTo` at the callee's `ret` gives the
-    caller its memory back; (2) `Returned`/`Done` with "`stepRet` into the caller's frame" instead of `.done`
-    (`Lower2Ctl.step_ret_item`, `step_ret_end` use `x.rest = []`); (3) the prologue of
-    `Lower2Main.lower2_correct_prog` from `enterFunc` on an arbitrary memory, with a bound on the call depth
-    (the IL stack is 64 MiB: the statement below therefore limits `cfuel`); (4) the case `call` of
-    `sim_stmt`, by the induction on `cfuel` over all functions of the program. -/
-def lower3_correct_full : Prop :=
-  ∀ (cs : Bool) (startid : Nat) (P : CSem3.Prog) (entry : String) (f : CSem2.Func) (ρ : List Int) (v : Int)
-    (ext : Ext), CSem3.wtP P = true → CSem3.lookup P entry = some f → EnvOK cs f.params ρ →
-    (∀ g ∈ P, g.params.length + g.locals.length ≤ 1000) →
-    ∀ cfuel, cfuel ≤ 1000 → CSem3.runP cs cfuel P entry ρ = some v →
+/-- **Semantic preservation for programs of 𝔽₂ functions** (in any IL program that has the emitted functions
+    and starts with an empty stack).  `P`: the C program, well-formed (`wtP`: every function is, every call
+    names a function of `P` with arguments of the parameter types and the declared return type); `K`: bound
+    on the number of variables of a function; `cfuel`: fuel of the C execution, which also bounds the depth
+    of the calls — the IL stack (64 MiB, 64 bytes per activation and at most 32 per variable) must have room
+    for `cfuel + 1` activations (`hroom`).  If the C execution of `entry(ρ)` returns `v` without undefined
+    behaviour, the IL run of `entry` on representations of `ρ` returns a representation of `v` for every
+    sufficiently large fuel: it does not get stuck, trap, overflow the stack or produce output. -/
+theorem lower3_correct_in (cs : Bool) (P : CSem3.Prog) (entry : String) (f : CSem2.Func) (ρ : List Int)
+    (v : Int) (hwt : CSem3.wtP P = true) (hlk : CSem3.lookup P entry = some f)
+    (henv : EnvOK cs f.params ρ) (K : Nat) (hK : ∀ g ∈ P, g.params.length + g.locals.length ≤ K)
+    (cfuel : Nat) (hroom : (cfuel + 1) * (64 + 32 * K) + 64 ≤ 67108864)
+    (hev : CSem3.runP cs cfuel P entry ρ = some v) (p : Prog) (ext : Ext)
+    (hfuncs : ∀ fn g, CSem3.lookup P fn = some g →
+      ∃ sid, p.funcs[fn]? = some (FuncInfo.of (Lower2.emitFunc cs sid g)))
+    (hstack : p.initMem.stack = #[]) (hsp : p.initMem.sp = stackTop) :
+    ∃ fuel₀ r, RetRep f.ret v r ∧ ∀ fuel, fuel₀ ≤ fuel →
+      runFunc p ext entry (argsOf f.params ρ) fuel = ⟨#[], .ret (.scalar r)⟩ := by
+  have hex : CSem2.exec cs P cfuel (CSem2.initStore f ρ) f.body = some (.ret v) := by
+    unfold CSem3.runP at hev
+    rw [hlk] at hev
+    simp only at hev
+    split at hev
+    · rename_i w h; cases hev; exact h
+    · cases hev
+  have hall : ∀ fn g, CSem2.lookup P fn = some g →
+      CSem2.WT g ∧ CSem2.callsOK P g.body = true ∧ g.vtys.length ≤ K := by
+    intro fn g hl
+    have hmem : g ∈ P := List.mem_of_find?_eq_some hl
+    have := List.all_eq_true.1 hwt g hmem
+    simp only [Bool.and_eq_true] at this
+    refine ⟨this.1, this.2, ?_⟩
+    have := hK g hmem
+    simpa [CSem2.Func.vtys] using this
+  have hname : f.name = entry := by
+    have := List.find?_some hlk
+    simpa using this
+  obtain ⟨sid, hfun⟩ := hfuncs entry f hlk
+  obtain ⟨hwf, hcalls, hKf⟩ := hall entry f hlk
+  rw [← hname] at hfun ⊢
+  refine LowerMach2.run_entry cs sid f ρ v hwf henv P p ext K cfuel hfuncs hall
+    (LowerMach2.frag_of_callsOK _ _ hcalls) hKf hfun hstack hsp ?_ cfuel (Or.inr (Nat.le_refl _)) hex
+  have h1 : (cfuel + 1) * (K + 1) ≤ (cfuel + 1) * (64 + 32 * K) := Nat.mul_le_mul_left _ (by omega)
+  constructor
+  · rw [hsp, stackTop_val, stackLimit_val]; omega
+  · rw [hstack]
+    have : (2 : Nat) ^ 64 = 18446744073709551616 := by decide
+    simp only [Array.size_empty, Nat.zero_add]
+    omega
+
+/-- **Semantic preservation for programs**: the IL module consisting of all emitted functions of `P`. -/
+theorem lower3_correct (cs : Bool) (startid : Nat) (P : CSem3.Prog) (entry : String) (f : CSem2.Func)
+    (ρ : List Int) (v : Int) (ext : Ext) (hwt : CSem3.wtP P = true) (hlk : CSem3.lookup P entry = some f)
+    (henv : EnvOK cs f.params ρ) (K : Nat) (hK : ∀ g ∈ P, g.params.length + g.locals.length ≤ K)
+    (cfuel : Nat) (hroom : (cfuel + 1) * (64 + 32 * K) + 64 ≤ 67108864)
+    (hev : CSem3.runP cs cfuel P entry ρ = some v) :
     ∃ fuel₀ r, RetRep f.ret v r ∧ ∀ fuel, fuel₀ ≤ fuel →
       runFunc (Prog.ofModule ⟨((emitProg cs startid P).map Def.func).toArray⟩) ext entry
-        (argsOf f.params ρ) fuel = ⟨#[], .ret (.scalar r)⟩
+        (argsOf f.params ρ) fuel = ⟨#[], .ret (.scalar r)⟩ := by
+  refine lower3_correct_in cs P entry f ρ v hwt hlk henv K hK cfuel hroom hev _ ext
+    (fun fn g hl => LowerMach2.ofModule_lookup cs startid P fn g hl) ?_ ?_
+  · rw [LowerMach2.ofModule_initMem]
+  · rw [LowerMach2.ofModule_initMem]
 
-/-- `short g(int a) { return a + 1; }  int h(int n) { int t; if (n <= 0) return 1; t = h(n - 1); t = g(t); return t * 2; }` -/
-def exProg : CSem3.Prog :=
-  [{ name := "g", ret := .short, params := [.int], locals := [],
-     body := .ret (.cast .short (.bin .add .int (.param .int 0) (.const .int 1))) },
-   { name := "h", ret := .int, params := [.int], locals := [.int],
-     body := .seq (.decl 1 .int none)
-       (.seq (.ite (.bin .le .int (.param .int 0) (.const .int 0)) (.ret (.const .int 1)))
-       (.seq (.call (some (1, .int)) .int "h" [.bin .sub .int (.param .int 0) (.const .int 1)])
-       (.seq (.call (some (1, .int)) .short "g" [.param .int 1])
-             (.ret (.bin .mul .int (.param .int 1) (.const .int 2)))))) }]
+/-- `lower3_correct` for entry functions returning `int`, `unsigned`, `long`, …: the outcome is an equation. -/
+theorem lower3_correct_exact (cs : Bool) (startid : Nat) (P : CSem3.Prog) (entry : String) (f : CSem2.Func)
+    (ρ : List Int) (v : Int) (ext : Ext) (hwt : CSem3.wtP P = true) (hlk : CSem3.lookup P entry = some f)
+    (henv : EnvOK cs f.params ρ) (K : Nat) (hK : ∀ g ∈ P, g.params.length + g.locals.length ≤ K)
+    (hret : 4 ≤ f.ret.size)
+    (cfuel : Nat) (hroom : (cfuel + 1) * (64 + 32 * K) + 64 ≤ 67108864)
+    (hev : CSem3.runP cs cfuel P entry ρ = some v) :
+    ∃ fuel₀, ∀ fuel, fuel₀ ≤ fuel →
+      runFunc (Prog.ofModule ⟨((emitProg cs startid P).map Def.func).toArray⟩) ext entry
+        (argsOf f.params ρ) fuel = ⟨#[], .ret (.scalar (argOf f.ret v).2)⟩ := by
+  obtain ⟨n, r, hr, h⟩ := lower3_correct cs startid P entry f ρ v ext hwt hlk henv K hK cfuel hroom hev
+  exact ⟨n, fun fuel hf => by rw [h fuel hf, retRep_exact hret hr]⟩
+
+/-- `short g(int a) { return a + 1; }` -/
+def exG : CSem2.Func :=
+  { name := "g", ret := .short, params := [.int], locals := [],
+    body := .ret (.cast .short (.bin .add .int (.param .int 0) (.const .int 1))) }
+/-- `int h(int n) { int t; if (n <= 0) return 1; t = h(n - 1); t = g(t); return t * 2; }` -/
+def exH : CSem2.Func :=
+  { name := "h", ret := .int, params := [.int], locals := [.int],
+    body := .seq (.decl 1 .int none)
+      (.seq (.ite (.bin .le .int (.param .int 0) (.const .int 0)) (.ret (.const .int 1)))
+      (.seq (.call (some (1, .int)) .int "h" [.bin .sub .int (.param .int 0) (.const .int 1)])
+      (.seq (.call (some (1, .int)) .short "g" [.param .int 1])
+            (.ret (.bin .mul .int (.param .int 1) (.const .int 2)))))) }
+def exProg : CSem3.Prog := [exG, exH]
 example : CSem3.wtP exProg = true := by decide
 /-- h(0) = 1, h(n) = 2·(h(n-1) + 1): h(3) = 22 -/
 example : CSem3.runP true 40 exProg "h" [3] = some 22 := by decide
 example : CSem3.runP true 40 exProg "g" [32767] = some (-32768) := by decide
+
+/-- the theorem applied: the module of `g` and `h`, run from `h(3)`, returns 22 -/
+example : ∃ fuel₀, ∀ fuel, fuel₀ ≤ fuel →
+    runFunc (Prog.ofModule ⟨((emitProg true 0 exProg).map Def.func).toArray⟩) noExt "h"
+      (argsOf exH.params [3]) fuel = ⟨#[], .ret (.scalar ⟨.w, 22⟩)⟩ := by
+  have hval : (argOf exH.ret 22).2 = ⟨.w, 22⟩ := by decide
+  rw [← hval]
+  exact lower3_correct_exact true 0 exProg "h" exH [3] 22 noExt (by decide) rfl
+    ⟨rfl, by
+      intro i t v ht hv
+      match i, ht, hv with
+      | 0, ht, hv => cases ht; cases hv; decide⟩
+    2 (by decide) (by decide) 40 (by decide) (by decide)
 
 /-! ## Non-vacuity (𝔽₂) -/
 
